@@ -722,7 +722,7 @@ Theorem placeholder_refuted :
     (forall x, In x l -> i_env x = PKey 1 /\ w_from (i_wire x) = Some 7).
 Proof.
   exists {| c_tree := two_nodes; c_insts := [0]; c_regs := regs_h1 |}.
-  exists [{| i_inst := 0; i_env := PKey 1;
+  exists [{| i_inst := 0; i_env := PKey 1; i_decl := None;
              i_wire := {| w_from := Some 7; w_from_other_tree := false; w_si := None;
                           w_type := 1; w_payload := 42 |} |}].
   eexists. split; [vm_compute; left; reflexivity|]. split; [left; reflexivity|].
@@ -734,7 +734,7 @@ Theorem nosender_refuted :
   exists c l, crashed (run pinned c l) = true /\ length l = 1.
 Proof.
   exists {| c_tree := two_nodes; c_insts := [0]; c_regs := regs_h1 |}.
-  exists [{| i_inst := 0; i_env := PKey 1;
+  exists [{| i_inst := 0; i_env := PKey 1; i_decl := None;
              i_wire := {| w_from := None; w_from_other_tree := false; w_si := None;
                           w_type := 1; w_payload := 42 |} |}].
   split; reflexivity.
@@ -743,7 +743,7 @@ Qed.
 (* and the same two inputs on the repaired variant *)
 Example repaired_on_witnesses :
   let c := {| c_tree := two_nodes; c_insts := [0]; c_regs := regs_h1 |} in
-  let mk from := [{| i_inst := 0; i_env := PKey 1;
+  let mk from := [{| i_inst := 0; i_env := PKey 1; i_decl := None;
              i_wire := {| w_from := from; w_from_other_tree := false; w_si := None;
                           w_type := 1; w_payload := 42 |} |}] in
   run repaired c (mk (Some 7)) = [RStep [] SErr] /\ run repaired c (mk None) = [RStep [] SErr].
@@ -753,7 +753,7 @@ Proof. split; reflexivity. Qed.
    member 1 to the root, over member 1's connection, is delivered as itself *)
 Example authentic_example :
   let c := {| c_tree := two_nodes; c_insts := [0]; c_regs := regs_h1 |} in
-  let l := [{| i_inst := 0; i_env := PKey 1;
+  let l := [{| i_inst := 0; i_env := PKey 1; i_decl := None;
                i_wire := {| w_from := Some 1; w_from_other_tree := false; w_si := Some 0;
                             w_type := 1; w_payload := 42 |} |}] in
   all_deliveries (run pinned c l) =
@@ -766,7 +766,7 @@ Proof. reflexivity. Qed.
    member 1's server) *)
 Example batch_refused_as_a_whole :
   let c := {| c_tree := T 0 0 [T 1 1 []; T 2 2 []]; c_insts := [0]; c_regs := [(2, (Handler, true))] |} in
-  let mk from env pl := {| i_inst := 0; i_env := PKey env;
+  let mk from env pl := {| i_inst := 0; i_env := PKey env; i_decl := None;
                i_wire := {| w_from := Some from; w_from_other_tree := false; w_si := None;
                             w_type := 2; w_payload := pl |} |} in
   run pinned c [mk 1 1 10; mk 2 1 11] = [RStep [] SWait; RStep [] SErr] /\
